@@ -70,8 +70,14 @@ def gen(rng, tier):
         if info["dep_keys"] and rng.random() < 0.35:
             # the fixed part also assigns a DEPENDENT variable (a state over all decision variables, with a stale value for it):
             # evaluation reports the value of its dependency function, whether or not the stale value was fixed first
+            # (only for a dependent variable that NO other dependency function reads: with a chain, the at-once evaluation of
+            #  the SDK itself depends on the iteration order of the dependency map -- the stale value may or may not be
+            #  overwritten before it is read --, so "the" value at the combined assignment is not defined; see DESIGN 0.2)
+            read_by_deps = set()
+            for _, dfn in inst[5]:
+                read_by_deps |= G.fn_ids(dfn)
             for dkey in info["dep_keys"]:
-                if rng.random() < 0.7:
+                if dkey not in read_by_deps and rng.random() < 0.7:
                     full.append([dkey, f64(GI.value_in(rng, info["kinds"][dkey], info["bounds"][dkey]))])
         nsteps = rng.choice([1, 1, 2, 2, 3])
         mask = [rng.randint(0, nsteps) for _ in full]
